@@ -154,14 +154,19 @@ func (h *hist) step() string {
 	case k < 11: // batch
 		n := 1 + r.Intn(5)
 		var batch []*detection.Signature
-		dupInBatch, overExisting := false, false
+		dupInBatch, overExisting, autoInBatch := false, false, false
 		seen := map[string]bool{}
 		for i := 0; i < n; i++ {
 			s := h.newSig("")
 			if i > 0 && r.Intn(3) == 0 {
 				s.ID = batch[r.Intn(len(batch))].ID
 			}
-			if seen[s.ID] {
+			if r.Intn(6) == 0 {
+				// a member without an ID, at any position of the batch: the store assigns one
+				s.ID = ""
+				autoInBatch = true
+			}
+			if s.ID != "" && seen[s.ID] {
 				dupInBatch = true
 				if _, live := h.m.Sigs[s.ID]; live {
 					overExisting = true
@@ -195,7 +200,14 @@ func (h *hist) step() string {
 		} else if err != nil {
 			violate("AddBatch", "AddSignatures failed: %v", err)
 		} else {
+			if autoInBatch {
+				h.pat["batch-with-auto-id"] = true
+			}
 			for _, b := range batch {
+				if b.ID == "" {
+					violate("AddBatchAutoID", "AddSignatures returned nil but left a member without an ID")
+					continue
+				}
 				if _, live := h.m.Sigs[b.ID]; live {
 					h.updated[b.ID] = true
 				}
